@@ -2,6 +2,7 @@
 (repeat, other hash seeds, dirty output directory, reordered rows and tables, asset subsets) are
 recorded and TLC checks that one set of computed results explains them all (Rp2Run!GroupFails)."""
 import copy
+import json
 import random
 import sys
 
@@ -17,9 +18,23 @@ def base_inputs(rnd, n):
         full = [h for h in hs if len(h) == maxtx and len({x["t"] for x in h}) == maxtx]  # distinct timestamps
         stats.append({"slice": slice_, "maxtx": maxtx, "states": dist, "transitions": trans, "histories_with_distinct_timestamps": len(full)})
         res.append(full)
+    # histories of the same shape (same symbols, same order) at different instants: laid out identically, assets then share row numbers
+    shapes = {}
+    for h in res[0]:
+        shapes.setdefault(json.dumps([{k: v for k, v in x.items() if k != "t"} for x in h], sort_keys=True), []).append(h)
+    twins = [v for v in shapes.values() if len(v) >= 2 and any(x["cls"] != "in" for x in v[0])]
+    # two lots with the same price, acquired at different times, and a disposal that does not consume both: the tie must be settled by time
+    tied = [h for h in res[0] if len({x["price"] for x in h if x["cls"] == "in"}) < sum(x["cls"] == "in" for x in h)
+            and any(x["cls"] == "out" for x in h)]
     groups = []
-    for _ in range(n):
-        groups.append({"B1": rnd.choice(res[0]), "B2": rnd.choice(res[1]), "B3": rnd.choice(res[2])})
+    for i in range(n):
+        if i % 4 == 1 and twins:
+            a, b = rnd.sample(rnd.choice(twins), 2)
+            groups.append({"B1": a, "B2": b, "B3": rnd.choice(res[2])})
+        elif i % 4 == 2 and tied:
+            groups.append({"B1": rnd.choice(tied), "B2": rnd.choice(tied), "B3": rnd.choice(res[1])})
+        else:
+            groups.append({"B1": rnd.choice(res[0]), "B2": rnd.choice(res[1]), "B3": rnd.choice(res[2])})
     return groups, stats
 
 
@@ -28,11 +43,13 @@ def run(tier):
     timer = common.Timer()
     rnd = random.Random(common.seed() * 7919 + 17)
     q = tier == "quick"
-    groups, genstats = base_inputs(rnd, 8 if q else 60)
+    groups, genstats = base_inputs(rnd, 12 if q else 80)
     jobs, index = [], []
     for gi, assets in enumerate(groups):
-        country = ["us", "generic", "jp", "ie", "es"][gi % 5]
+        country = ["us", "generic", "us", "generic", "jp", "ie", "generic", "es"][gi % 8]
         method = rnd.choice(["fifo", "lifo", "hifo", "lofo"]) if country in ("us", "generic") else None
+        if gi % 4 == 2 and country in ("us", "generic"):
+            method = ["hifo", "lofo"][(gi // 4) % 2]       # (equal prices: the sort key's tie-breakers decide)
         base = {"kind": "cli", "country": country, "args": {"method": method, "lang": "en" if country == "jp" else None, "from": None, "to": None, "neg": False},
                 "assets": assets, "conc": {"U": "0.5", "P": "10", "sheet": {}}, "sched": None, "mode": "fork", "observe": ["computed"]}
         variants = [("base", True, base), ("repeat", True, copy.deepcopy(base))]
@@ -44,7 +61,10 @@ def run(tier):
         tag = method or "fifo"
         v["pre_files"] = {"notes.txt": "foreign file\n", f"{tag}_rp2_full_report.ods": "stale, not even a zip\n", f"{tag}_open_positions.ods": "stale\n"}
         variants.append(("dirty", True, v))
-        for _ in range(2 if q else 6):
+        v = copy.deepcopy(base)
+        v["conc"]["sheet"]["row_perm"] = {a: list(range(len(h) - 1, -1, -1)) for a, h in assets.items()}     # every table upside down
+        variants.append(("rows", False, v))
+        for _ in range(1 if q else 5):
             v = copy.deepcopy(base)
             v["conc"]["sheet"]["row_perm"] = {a: rnd.sample(range(len(h)), len(h)) for a, h in assets.items()}
             variants.append(("rows", False, v))
